@@ -4,6 +4,9 @@ from __future__ import annotations
 import inspect
 import json
 import math
+import os
+import shutil
+import tempfile
 import warnings
 
 import numpy as np
@@ -307,7 +310,7 @@ def o_mixed(ctx):
         s1 = cubed.Spec(**{**base, **delta})
         a, b = mk_arrays(s0, "2d"), mk_arrays(s1, "2d")
         for nm, fn in (("compute", lambda: cubed.compute(xp.negative(a), xp.negative(b))),
-                       ("visualize", lambda: cubed.visualize(xp.negative(a), xp.negative(b), filename="/tmp/c18_vis")),
+                       ("visualize", lambda: cubed.visualize(xp.negative(a), xp.negative(b), filename=os.path.join(tempfile.gettempdir(), f"c18_vis_{os.getpid()}"))),
                        ("store", lambda: cubed.store([xp.negative(a), xp.negative(b)], [zarr.storage.MemoryStore(), zarr.storage.MemoryStore()])),
                        ("plan", lambda: cubed.core.array.plan(xp.negative(a), xp.negative(b)))):
             ctx.evaluations += 1
@@ -335,6 +338,18 @@ def o_mixed(ctx):
 
 
 def run(ctx):
+    # some public functions (visualize) write a picture into the current directory: run from a scratch directory
+    cwd = os.getcwd()
+    scratch = tempfile.mkdtemp(prefix="c18_cwd_")
+    os.chdir(scratch)
+    try:
+        _run(ctx)
+    finally:
+        os.chdir(cwd)
+        shutil.rmtree(scratch, ignore_errors=True)
+
+
+def _run(ctx):
     warnings.filterwarnings("ignore")
     k_convert(ctx)
     k_spec(ctx)
